@@ -127,14 +127,66 @@ class InvRng(SymRng):
         return u
 
 
-class ScriptEngine:
-    """MD engine stand-in obeying the C12 contract: propagate() emits frame 0 = the phase point it was given, then
-    frames with fresh symbolic order values, each added through the REAL EngineBase.add_to_path."""
+class _NullMsgFile:
+    def __init__(self, *a, **k):
+        pass
+
+    def open(self):
+        pass
+
+    def write(self, s):
+        pass
+
+    def close(self):
+        pass
+
+    def flush(self):
+        pass
+
+
+def _engine_base():
+    """EngineBase with the file layer of its propagate() prelude silenced: the REAL prelude (dump the frame, reverse
+    velocities on disk if needed, re-point the system it was handed to the dumped file, set its direction) runs."""
+    import infretis.classes.engines.enginebase as ibase
+    ibase.FileIO = _NullMsgFile
+    return ibase.EngineBase
+
+
+class _StubEngineMixin:
+    def _stub_init(self, description):
+        base = _engine_base()
+        base.__init__(self, description, 1.0, 1)
+        self._exe_dir = "."
+        self.prelude = []
+
+    def _extract_frame(self, traj_file, idx, out_file):
+        self.prelude.append(("extract", traj_file, idx, out_file))
+
+    def _reverse_velocities(self, filename, outfile):
+        self.prelude.append(("reverse", filename, outfile))
+
+    def _read_configuration(self, filename):
+        raise core.HarnessError("stub engine does not read configurations")
+
+    def modify_velocities(self, system, vel_settings):
+        raise core.HarnessError("this stub engine does not regenerate velocities")
+
+
+def _mk_engine_class(name, mixin, body):
+    base = _engine_base()
+    return type(name, (_StubEngineMixin, base), body)
+
+
+class _ScriptEngineBody:
+    """MD engine stand-in obeying the C12 contract: the real EngineBase.propagate prelude runs, then _propagate_from emits
+    frame 0 = the phase point it was given and frames with fresh symbolic order values, each added through the REAL
+    EngineBase.add_to_path."""
 
     order_function = None
-    beta = 1.0
 
     def __init__(self, ctx, nfresh, name="eng", kick_changes_order=False):
+        self._stub_init("script-engine")
+        self._beta = 1.0
         self.ctx = ctx
         self.nfresh = nfresh
         self.name = name
@@ -168,7 +220,7 @@ class ScriptEngine:
     def seg_value(self, sid, k):
         return self.ctx.real(f"{self.name}.s{sid}_{k}")
 
-    def propagate(self, path, ens_set, system, reverse=False):
+    def _propagate_from(self, name, path, system, ens_set, msg_file, reverse=False):
         from infretis.classes.engines.enginebase import EngineBase
         left, _, right = ens_set["interfaces"]
         self.seg += 1
@@ -225,13 +277,15 @@ class Energies:
         return self.ctx.real(f"V{level}.{line}.{t}".replace("-", "m"))
 
 
-class LineEngine:
-    """deterministic time-reversible engine: walks along the Line the phase point lives on, through the real add_to_path.
-    actual velocity direction of a phase point is system.d (+1/-1 in line index); propagate(reverse=True) walks against it."""
+class _LineEngineBody:
+    """deterministic time-reversible engine: the real EngineBase.propagate prelude runs, then _propagate_from walks along
+    the Line the phase point lives on, through the real add_to_path. The actual velocity direction of a phase point is
+    system.d (+1/-1 in line index); propagate(reverse=True) walks against it."""
 
     order_function = None
 
     def __init__(self, ctx, level, budget, energies=None, beta=None):
+        self._stub_init(f"line-engine-{level}")
         self.ctx, self.level, self.budget, self.energies = ctx, level, budget, energies
         self._beta = beta
         self.calls = []
@@ -253,7 +307,7 @@ class LineEngine:
         phasepoint.set_pos((f"{self.level}/{deffnm}", 0))
         phasepoint.dumped = deffnm
 
-    def propagate(self, path, ens_set, system, reverse=False):
+    def _propagate_from(self, name, path, system, ens_set, msg_file, reverse=False):
         from infretis.classes.engines.enginebase import EngineBase
         left, _, right = ens_set["interfaces"]
         self.propagations += 1
@@ -279,3 +333,24 @@ class LineEngine:
                 break
             k += 1
         return success, status
+
+
+def _body(cls):
+    return {k: v for k, v in cls.__dict__.items() if k not in ("__dict__", "__weakref__")}
+
+
+_CACHE = {}
+
+
+def ScriptEngine(*a, **k):
+    if "script" not in _CACHE:
+        _CACHE["script"] = _mk_engine_class("ScriptEngine", object, _body(_ScriptEngineBody))
+    _engine_base()
+    return _CACHE["script"](*a, **k)
+
+
+def LineEngine(*a, **k):
+    if "line" not in _CACHE:
+        _CACHE["line"] = _mk_engine_class("LineEngine", object, _body(_LineEngineBody))
+    _engine_base()
+    return _CACHE["line"](*a, **k)
